@@ -5,7 +5,7 @@ from .core import ( rule, Result, AnalysisError, dotted, call_name, is_call_to, 
                     norm_text, dotted_in, stmt_of, pmatch, pfind, txt )
 from .core import Matcher
 from .cfg import CFG
-from .fold import fold, try_fold, NoFold
+from .fold import fold, try_fold, NoFold, run_block, Record, helper_calls
 from . import spec
 from .grammar import grammar_of, Node, Decide, Closure, ClassRef, Unknown
 
@@ -109,10 +109,57 @@ def t_types( ctx ):
     asrc = ctx.src( 'automata.py' )
     term = asrc.get( 'state_struct.terminate' )
     init = asrc.get( 'state_struct.__init__' )
-    ok_init = bool( pfind( init, 'self._struct = struct.Struct( self.struct_format )' ))
-    ok_unpack = bool( pfind( term, 'self._struct.unpack_from( buffer=_b )[0]' ))
-    sizes = [ m['_s'] for n, m in pfind( term, '_s = self.struct_calcsize' ) ]
-    ok_beg = any( pfind( term, '_beg = self.offset + self.index * %s' % s_.id ) for s_ in sizes if isinstance( s_, ast.Name ))
+    # decided by value.  __init__ ( its stores, on a record standing for the instance ): the compiled struct is made of the EFFECTIVE format
+    # ( the argument when given, else the class's ), and so is the size.  terminate ( the statements after the exception exit ): the
+    # octets handed to that struct's unpack_from are [ offset + index * size, + size ) of the collected input
+    def init_cell( fmt ):
+        inst = Record( struct_format='<CLS>', struct_calcsize=( 'size', '<CLS>' ))
+        env = { 'self': inst, 'struct.Struct': lambda f: ( 'Struct', f ), 'struct.calcsize': lambda f: ( 'size', f ), 'path_ext_input': 'EXT' }
+        params = [ a.arg for a in init.args.args ][2:]
+        dflt = init.args.defaults
+        for a, d in zip( reversed( params ), reversed( dflt )):
+            env[a] = try_fold( d )
+        env['format'] = fmt
+        for st in init.body:
+            if isinstance( st, ast.Expr ):
+                continue						# the super-class call
+            try:
+                run_block( [ st ], env )
+            except NoFold:
+                continue
+        return getattr( inst, '_struct', None ), getattr( inst, 'struct_calcsize', None )
+    ok_init = init_cell( None ) == (( 'Struct', '<CLS>' ), ( 'size', '<CLS>' )) and init_cell( '<H' ) == (( 'Struct', '<H' ), ( 'size', '<H' ))
+    seen_bufs = []
+    def unpack_from( *a, **kw ):
+        b = kw['buffer'] if 'buffer' in kw else a[0] if a else None
+        off = kw['offset'] if 'offset' in kw else a[1] if len( a ) > 1 else 0
+        if not isinstance( b, list ):
+            raise NoFold( 'unpack_from of %r' % ( b, ))
+        seen_bufs.append(( b, off ))
+        return ( 'VAL', )
+    tail = list( term.body )
+    for k_, st in enumerate( term.body ):
+        if isinstance( st, ast.If ) and 'exception' in names_in( st.test ):
+            tail = term.body[k_ + 1:]
+    ok_unpack = ok_beg = False
+    for size, offset, index in (( 2, 0, 0 ), ( 4, 10, 3 ), ( 1, 5, 2 )):
+        del seen_bufs[:]
+        env = { 'self.struct_calcsize': size, 'self.offset': offset, 'self.index': index, 'ours': 'o', 'self._input': '.i',
+                'data': { 'o.i': list( range( 64 )) }, 'self._struct.unpack_from': unpack_from }
+        for st in tail:
+            try:
+                if run_block( [ st ], env ).kind != 'fall':
+                    break
+            except NoFold:
+                if seen_bufs:
+                    break
+        ok_unpack = len( seen_bufs ) == 1
+        if not ok_unpack:
+            break
+        b, off = seen_bufs[0]
+        ok_beg = b[off:off + size] == list( range( offset + index * size, offset + index * size + size ))
+        if not ok_beg:
+            break
     if ok_init and ok_unpack and ok_beg:
         res.ok( asrc, term, 'state_struct unpacks struct.Struct( self.struct_format ) at offset + index * calcsize' )
     else:
@@ -139,7 +186,6 @@ def t_types( ctx ):
         res.bad( src, ts, 'TYPES_SUPPORTED lacks %s' % m, 'all 14 CIP element types + STRUCT must be supported' )
     # ( by value: the function body is evaluated for three element sizes x four counts )
     ds = src.get( 'typed_data.datasize' )
-    from .fold import run_block, Record
     dparams = [ a.arg for a in ds.args.args if a.arg not in ( 'cls', 'self' ) ]
     wrong = None
     try:
@@ -844,7 +890,7 @@ def d_resolve( ctx ):
     # the bracket-balancing step keeps what follows the segment: when the closing bracket was found and a '.' follows it, the remainder - even
     # an EMPTY one ( a trailing dot ) - is the rest of the key; only when no '.' follows is there no rest.  ( `rest or None` turns the empty
     # rest into "no rest": 'l[i.j].' is then a member and assignable although it names nothing, unlike 'l[0].' )
-    from .fold import run_block
+
     parts = [ a_ for a_ in ast.walk( fn ) if isinstance( a_, ast.Assign ) and isinstance( a_.targets[0], ast.Tuple ) and len( a_.targets[0].elts ) == 3
               and isinstance( a_.value, ast.Call ) and isinstance( a_.value.func, ast.Attribute ) and a_.value.func.attr == 'partition' and try_fold( a_.value.args[0] ) == '.' ]
     if len( parts ) == 1:
@@ -905,7 +951,7 @@ def m_extent( ctx ):
     # by value: the statements of the merge branch ( and the locals computed ahead of it ) are evaluated for a grid of ( running range, merged
     # range ) cells; the running range must afterwards reach exactly as far as the farther of the two ends - never shorter ( requested
     # registers dropped ), never longer ( registers nobody asked for and nobody is within reach of )
-    from .fold import run_block, helper_calls
+
     ADDR, CNT = [ e.id for e in loop.target.elts ]
     mbp = src.parent.get( mb )
     blk = next(( getattr( mbp, f_ ) for f_ in ( 'body', 'orelse' ) if mb in getattr( mbp, f_, [] )), [] )
@@ -1171,7 +1217,7 @@ def m_limit( ctx ):
     # limit ) cell.  An explicit positive limit is honoured in every bank; without one ( None, 0 ) the per-bank default applies - 1968 for
     # the Coil / Status banks, 123 for the register banks - deduced from the address being split; whatever is passed, the limit that
     # reaches the loop is positive ( `min( count, limit )` of a negative limit never consumes the count: the generator does not end )
-    from .fold import run_block, helper_calls
+
     helpers = helper_calls( src.tree, ignore_calls=( 'log', ))
     addr = sh.args.args[0].arg
     LIM = 'limit' if 'limit' in [ a_.arg for a_ in sh.args.args ] else None
@@ -1240,7 +1286,7 @@ def m_bank( ctx ):
     t0 = _merge_branch( fn, L ).test
     t = _inline_helpers( src, fn, t0 )
     # locals computed just ahead of the merge test ( edge = ( base // 10000 + 1 ) * 10000 ) and decision helpers of the file take part in it
-    from .fold import run_block, helper_calls
+
     helpers_ = helper_calls( src.tree, ignore_calls=( 'log', ))
     mbp_ = src.parent.get( _merge_branch( fn, L ))
     blk_ = next(( getattr( mbp_, f_ ) for f_ in ( 'body', 'orelse' ) if _merge_branch( fn, L ) in getattr( mbp_, f_, [] )), [] )
@@ -2527,7 +2573,7 @@ def t_bool( ctx ):
     ( Scaling the value - 0xff * value - is the same for 0 and 1 and overflows the octet for 0xFF: the tag that was written with success can
     no longer be read. )"""
     import copy
-    from .fold import run_block
+
     res = Result( 'T-BOOL' )
     src = ctx.src( 'server/enip/parser.py' )
     fn = src.get( 'BOOL.produce' )
